@@ -14,7 +14,7 @@ INF = float('inf')
 
 class PreludeMixin:
     BUILTINS = {'len', 'range', 'xrange', 'set', 'dict', 'list', 'tuple', 'sorted', 'min', 'max', 'int', 'str',
-                'float', 'bool', 'isinstance', 'all', 'any', 'zip', 'enumerate', 'reversed', 'sum', 'abs',
+                'float', 'bool', 'isinstance', 'all', 'any', 'zip', 'enumerate', 'reversed', 'sum', 'abs', 'round',
                 'getattr', 'pow', 'iter', 'next', 'type', 'repr', 'print', 'frozenset', 'hasattr'}
     SPEC_BUILTINS = {'vec_le', 'vec_ge', 'vec_lt', 'vec_eq', 'vec_zero', 'dom', 'is_none', 'to_real', 'length',
                      'keys_subset', 'str_to_int', 'alive', 'in_prefix', 'name_of', 'str_of', 'clock_now', 'eps', 'rdiv', 'is_int', 'ext', 'fs_kind', 'fs_target', 'path', 'dict_put', 'dict_del', 'set_put', 'set_del', 'counter_inc', 'is_digits', 'select', 'strlen', 'cls_is', 'distinct_list'}
@@ -776,6 +776,20 @@ class PreludeMixin:
         if k == KReal:
             return SI(z3.ToInt(v.z))     # floor; equals trunc for non-negative
         raise CheckerError('int() of %r' % (k,))
+
+    def b_round(self, st, fr, args, kw):
+        """round(x) -> int: some integer within 1/2 of x (which one at a tie is left open)."""
+        if len(args) != 1:
+            raise CheckerError('round() with ndigits is not modelled')
+        v = args[0]
+        if not isinstance(v, SVal):
+            return round(v)
+        if ops.kind_of(v) == KInt:
+            return v
+        x = ops.coerce(v, KReal).z
+        r = z3.Int(fresh_name('round'))
+        st.assume(z3.ToReal(r) - x <= z3.RealVal('1/2'), x - z3.ToReal(r) <= z3.RealVal('1/2'))
+        return SI(r)
 
     def b_str(self, st, fr, args, kw):
         v = args[0]
